@@ -8,9 +8,9 @@ from harness.common import Ck, coq_Z_list, coq_list
 from translate import c08_sites
 
 MANIFEST = dict(
-    technique='Rocq proof (allocator freshness/termination, lifecycle NoDup invariant by induction over histories) + ast site census + vm_compute correspondence',
-    text='Theorems in Props/C08.v: the IDMan scan terminates and returns a positive unused ID keeping the search_pos invariant; for every history of create/remove/re-add/gc the IDs of existing objects are pairwise distinct and positive provided IDs are released only by destructors; fixup indexes stay distinct and positive. The premises (release sites, ID stores, fixup acceptance test) are regenerated from vmf.py/instancing.py on every run and kernel-checked; IDMan, EntityFixup and the entity lifecycle are compared with the model on random operation sequences; histories over all six ID kinds are searched on real VMF objects.',
-    note='Trusted: Coq kernel + vm_compute, translate/c08_sites.py, hand models SM/IdMan.v and SM/IdLife.v (tied by differential runs), CPython gc/refcount for __del__ timing. Nav-node IDs (nodeid keyvalue) are searched, not modelled; their known duplicate defect is in known_findings.json. Maps opened with preserve_ids=True are exempt by definition.',
+    technique='Rocq proof (allocator refinement to a finite set, lifecycle NoDup invariants by induction over histories of several maps incl. copy/parse/collapse, nav-node ID lifecycle, fixup indexes) + ast site census + vm_compute correspondences',
+    text='Theorems in Props/C08.v: the IDMan scan terminates and returns a positive unused ID keeping the search_pos invariant; from every invariant state IDMan is observationally equal to a plain finite set that hands out the desired ID if positive and free, else the least free positive ID (search_pos is unobservable); for every history over any number of maps of construction with arbitrary desired IDs, copy() within and across maps, removal, re-adding, destruction, VMF.parse of documents with colliding/missing/non-positive IDs and collapse_one, the existing objects of one kind that belong to one map have pairwise distinct positive IDs, provided IDs are released only by destructors and every copy site passes the destination map down; nav-node IDs held by existing entities are distinct and positive after every history of key set/delete/copy/remove/re-add/destroy provided remove_ent does not release them; fixup indexes stay distinct and positive. The premises (release sites, ID stores, map argument of every constructor/copy call inside copy() methods and collapse_one, node-ID shapes, fixup acceptance test / deferral / start index, hint guard) are regenerated from vmf.py/instancing.py on every run and kernel-checked; IDMan, EntityFixup, the entity lifecycle, three-map histories of entities/brushes/faces, node-ID histories and VMF.parse results are compared with the models on random inputs (exact IDs); histories over all ID kinds including collapse_one are searched on real VMF objects.',
+    note='Trusted: Coq kernel + vm_compute, translate/c08_sites.py (which call sites matter: copy() methods of the five ID classes and collapse_one; other functions that build objects from a foreign map are not in the census), hand models SM/IdMan.v, SM/IdLife.v, SM/IdWorld.v, SM/IdNode.v (tied by differential runs), CPython refcount/gc for __del__ timing. The kinds are independent single-kind models (each class uses the manager of its kind: census obligation). Node IDs reserved by Instance.fixup_key are never released (leak, not modelled). Direct writes to Entity._keys / the deprecated Entity.keys dict bypass the node-ID rule. Maps opened with preserve_ids=True are exempt by definition.',
 )
 
 IMPORTS = ['SV.SM.IdMan', 'SV.SM.IdManSpec', 'SV.SM.IdLife', 'SV.SM.IdWorld', 'SV.SM.IdNode', 'SV.Gen.IdSites_gen', 'SV.Props.C08',
@@ -1089,11 +1089,17 @@ def _post_vis(lst):
 
 # ------------------------------------------------------------------------------------------------ main
 def run(ck: Ck) -> None:
-    ck.rule = ('IDMan: random operation sequences over a small ID range (collisions frequent), non-trivial = more than 3 '
-               'distinct results; lifecycle: random histories of create/copy/remove/re-add/gc/node edits over 6 object kinds, '
-               'non-trivial = contains create and remove; fixups: random init lists with colliding/non-positive indexes '
-               'followed by set/del, non-trivial = at least two variables left; distinct by full sequence')
-    ck.trusted.append('hand-written models SM/IdMan.v, SM/IdLife.v (tied by differential correspondence on every run)')
+    ck.rule = ('IDMan: random operation sequences over a small ID range (collisions frequent) from IDMan(existing), non-trivial = '
+               'more than 3 distinct results; lifecycle: random histories of create/copy/cross-map copy/collapse_one/remove/re-add/gc/'
+               'node edits over 7 object kinds, non-trivial = contains create and remove; world: histories over three maps of point '
+               'entities, brush entities and world brushes (nested solids and faces get their own event streams), non-trivial = '
+               'contains an explicit cross-map or same-map copy(vmf_file=...); node: histories of the nodeid keyvalue, non-trivial = '
+               'at least two of set/delete/remove; parse: generated VMF documents whose ids are drawn from a small pool with '
+               'missing/0/negative/colliding values, non-trivial = at least two kinds with different desired ids; fixups: random '
+               'init lists with colliding/non-positive indexes followed by set/del, non-trivial = at least two variables left; '
+               'distinct by full sequence / text')
+    ck.trusted.append('hand-written models SM/IdMan.v, SM/IdLife.v, SM/IdWorld.v, SM/IdNode.v (tied by differential correspondence on every run)')
+    ck.assumptions.append('objects are added to the map they were constructed for (VMF.add_ent docstring); Entity._keys is only written through the mapping API')
     ok_t = ck.translate('IdSites_gen', c08_sites.translate)
     side = ck.extra.get('translated', {}).get('IdSites_gen', {})
     built = ok_t and ck.build(['Props/C08.vo'])
